@@ -497,7 +497,10 @@ class TorrentFileStream:
 
         # Always seek because `fh` may be a re-used file handle that was already
         # read from
-        skipped = fh.seek(skip_bytes)
+        try:
+            skipped = fh.seek(skip_bytes)
+        except OSError as e:
+            raise error.ReadError(e.errno, fh.name)
         skip_bytes -= skipped
 
         def iter_pieces(fh, prepend):
